@@ -309,7 +309,7 @@ func (d *driver) pick() []cmdT {
 				if !set() {
 					continue
 				}
-				c.Op, c.Sop, c.Fl = "STORE", []string{"set", "add", "add", "del", "del"}[d.rng.Intn(5)], d.flags(2)
+				c.Op, c.Sop, c.Fl = "STORE", []string{"set", "add", "add", "del", "del"}[d.rng.Intn(5)], d.flags(3)
 				c.Silent = d.rng.Intn(5) == 0
 			case r < 67:
 				if !set() {
